@@ -62,7 +62,12 @@ fn judge(ctx: &mut Ctx, case: &Case, op: &str, form: &str, r: Result<BigDecimal,
         Ok(v) => {
             ctx.out_bd(&v);
             let got = Dec::of(&v);
-            if model::eq_dec(&got, want) {
+            let held = model::eq_dec(&got, want);
+            if (form == "&BigDecimal + &BigDecimal" || form == "&BigDecimal - &BigDecimal" || form == "&BigDecimal * &BigDecimal") && ctx.want_event() && case.arg(0).len() + case.arg(1).len() < 600 {
+                // logged once per case and operation (operand order as in the first pass)
+                ctx.log(op, &[case.arg(0).to_string(), case.arg(1).to_string()], serde_json::json!({"form": form}), got.tok(), held);
+            }
+            if held {
                 ctx.ok();
             } else {
                 ctx.fail(&format!("{}/value-mismatch", op), case, format!("form `{}`: got {} want {}", form, got.tok(), want.tok()));
@@ -260,7 +265,10 @@ pub fn check_case(case: &Case, ctx: &mut Ctx) {
     let b = bd.bd();
 
     decimal_forms(ctx, case, &a, &b, &ad, &bd);
+    let keep = ctx.event_budget;
+    ctx.event_budget = 0; // (the swapped pass is not logged: the event's inputs are in case order)
     decimal_forms(ctx, case, &b, &a, &bd, &ad);
+    ctx.event_budget = keep;
     bigint_forms(ctx, case, &a, &ad, &bd.n);
     derived_forms(ctx, case, &a, &b, &ad, &bd);
 
